@@ -50,7 +50,7 @@ Qed.
 Lemma ns_deq s t e s' : INV s -> R_ns s t -> step_deq s e = Some s' ->
   exists t', ns_step t e = Some t' /\ R_ns s' t'.
 Proof.
-  intros HI HR H. unfold R_ns in *. pose proof (I_shape _ HI) as Hsh. unfold step_deq in H.
+  intros HI HR H. unfold R_ns in *. pose proof (I_shape _ HI) as Hsh. unfold step_deq, guard in H.
   inv_step H; inv_helpers; injection H as <-; subst; cbn [dp_shape] in Hsh.
   all: try (cbn [ns_step]; eexists; split; [reflexivity|]; bcsimpl; cbn [dp_pkt]; try exact HR; try discriminate; fail).
   - (* DeqRet, qos 0 *)
@@ -180,7 +180,7 @@ Qed.
 Lemma sb_deq s t e s' g : INV s -> R_sb s t -> ev_g e = Some g -> gdeq s = Some g -> step_deq s e = Some s' ->
   exists t', sb_step t e = Some t' /\ R_sb s' t'.
 Proof.
-  intros HI HR Hg Hr H. pose proof (I_shape _ HI) as Hsh. unfold step_deq in H. unfold R_sb in HR.
+  intros HI HR Hg Hr H. pose proof (I_shape _ HI) as Hsh. unfold step_deq, guard in H. unfold R_sb in HR.
   inv_step H; inv_helpers; injection H as <-; subst; cbn [dp_shape] in Hsh; cbn [ev_g] in Hg; try injection Hg as ->.
   all: try (cbn [sb_step]; eexists; split; [reflexivity|]; unfold R_sb; bcsimpl; try exact I; try exact HR; fail).
   - (* DeqRet qos 0 *)
@@ -347,7 +347,7 @@ Qed.
 Lemma ku_deq' s t e s' g : INV s -> R_ku s t -> ev_g e = Some g -> gdeq s = Some g -> step_deq s e = Some s' ->
   exists t', ku_step t e = Some t' /\ R_ku s' t'.
 Proof.
-  intros HI HR Hg Hr H. pose proof (I_shape _ HI) as Hsh. unfold step_deq in H.
+  intros HI HR Hg Hr H. pose proof (I_shape _ HI) as Hsh. unfold step_deq, guard in H.
   pose proof HR as HR'. unfold R_ku in HR'.
   inv_step H; inv_helpers; injection H as <-; subst; cbv beta iota in HR';
     cbn [dp_shape] in Hsh; cbn [ev_g] in Hg; try injection Hg as ->.
